@@ -321,7 +321,10 @@ M("C18", GA, """                    new_coeff = new_data.setdefault(new_bits, 0)
 M("C18", GA, """            data = {bits: coeff for bits, coeff in data.items()
                     if not is_zero(coeff)}""", """            pass""", "revert of fix 0178b1f (explicit zeros kept)")
 
+M("C16", "pymbolic/mapper/unifier.py", """            expr, other, unis, _make_regrouper(Product)))""", """            expr, other, unis, __import__("pymbolic").primitives.flattened_product))""", "revert of fix 4f1d12c (leftover product operands simplified away)")
+M("C16", "pymbolic/mapper/unifier.py", """            expr, other, unis, _make_regrouper(Sum)))""", """            expr, other, unis, __import__("pymbolic").primitives.flattened_sum))""", "revert of fix 4f1d12c (leftover sum operands simplified away)")
 AL = "pymbolic/algorithm.py"
+M("C19", "pymbolic/algorithm.py", """            aux = aux * x""", """            aux *= x""", "revert of fix 9cda97f (identity element multiplied in place)")
 M("C19", "pymbolic/rational.py", """            numerator //= d_unit
             denominator //= d_unit""", """            numerator /= d_unit
             denominator /= d_unit""", "revert of fix 01bce4f (Rational keeps integers exact)")
